@@ -7,7 +7,7 @@ META = {
     "technique": "Lean 4 model of Digit::NumberToString (integers, realToString, the three layouts, in-place rounding with checked writes) + a reference formatter written from ISO C / IEEE 754 (exact rational arithmetic); kernel-checked theorems for the integer path, tables, special values and append-only; model = implementation = reference compared on boundary-biased samples x precision 0..40 x 3 formats",
     "level": "partial-proof",
     "design_ref": "DESIGN.md §6 C10, notes/design-numtostr.md",
-    "text": "Proved for every input (kernel-checked): the integer path prints exactly the decimal digits of every 8/16/32/64-bit value incl. the minimum values; inf/nan/zero print the reference text in every format and precision; the tables are the exact powers of five / digit pairs; the text is appended after what the stream held (integer path; real path: every poke of the model is guarded and a guarded run leaves the prefix untouched). The main statement format_eq_spec (model text = printf reference for every finite double/float, precision <= 40, three formats) is STATED and proved only for the zero / non-finite classes; for the rest the decision on a run rests on (a) model = C++ text and (b) C++ text = the Lean reference (FmtSpec, exact rationals) on the sampled domain, plus snprintf as a second opinion on millions of uniform patterns.",
+    "text": "Proved for every input (kernel-checked): the integer path prints exactly the decimal digits of every 8/16/32/64-bit value incl. the minimum values; inf/nan/zero print the reference text in every format and precision; the tables are the exact powers of five / digit pairs; the text is appended after what the stream held (integer path; real path: every poke of the model is guarded and a guarded run leaves the prefix untouched). The main statement FormatEqSpec (model text = printf reference for every finite double/float, precision <= 40, three formats) is STATED and proved for every inf/nan/zero pattern in all formats and for every integer-valued double (all |x| >= 2^52, i.e. 47% of the finite doubles, and all integers) in Fixed and SemiFixed; for the rest the decision on a run rests on (a) model = C++ text and (b) C++ text = the Lean reference (FmtSpec, exact rationals) on the sampled domain, plus snprintf as a second opinion on millions of uniform patterns.",
     "note": "Trusted: Lean kernel; axioms within {propext, Quot.sound, Classical.choice}; g++ as table translator; the correspondence harness (ASan/UBSan, exact-fit stream growth so a poke or read past the stream's capacity is a sanitizer report). format_eq_spec for general finite values is not proved: for those the evidence is differential testing against an exact-arithmetic reference (listed under open_statements). BigInt word arithmetic is taken as exact integer arithmetic (property C19).",
 }
 
@@ -25,10 +25,12 @@ THEOREMS = [
     "Qentem.Props.C10.special_values",
     "Qentem.Props.C10.special_values_text",
     "Qentem.Props.C10.format_eq_spec_partial",
+    "Qentem.Props.C10.format_eq_spec_integers",
+    "Qentem.Props.C10.integer_valued_of_big",
     "Qentem.Props.C10.format_eq_spec_witnesses",
 ]
 OPEN = [
-    "Qentem.Props.C10.FormatEqSpec (model text = reference text for every finite double/float, precision <= 40, three formats): stated, proved only for zero / non-finite values",
+    "Qentem.Props.C10.FormatEqSpec (model text = reference text for every finite double/float, precision <= 40, three formats): stated; proved for every inf/nan/zero pattern (all formats) and for every integer-valued double, i.e. all |x| >= 2^52 and all integers, in Fixed and SemiFixed; open for the rest",
 ]
 
 
